@@ -779,3 +779,86 @@ def gen_cont(focus, quick_n, thorough_n):
             f = focus[i % len(focus)]
             yield cont_case(universe, rnd, f, rnd.randrange(6, 60))
     return gen
+
+
+# ----------------------------------------------------------------------------- borrow guards (opcodes 100..115)
+QALL, TTABLE = CAT.queries_all()
+QASTS_ALL = [CAT.q_ast(q) for q in QALL]
+BAD_ASTS = [CAT.q_ast(q) for q in CAT.BAD]
+TR_ASTS = [CAT.q_ast(q) for q in CAT.TR]
+
+
+def guard_case(universe, rnd, nworld, nguard, conflict_free=False):
+    g = WorldGen(rnd, "default")
+    g.small = True
+    g.w = [30, 0, 10, 4, 2, 6, 0, 2, 0, 2, 1, 1, 0, 3, 3, 0]      # mostly spawns: build some populated archetypes
+    for _ in range(nworld):
+        g.step()
+    g.emit(12, 0, 12, 1)                                            # flush both worlds: guards need a frozen world
+    slots = []          # dict(kind, qidx, w)
+    r = rnd
+
+    def pick_q():
+        return r.randrange(24) if r.random() < 0.75 else r.randrange(len(QUERIES))
+
+    def qargs(qi):
+        return [qi, len(QASTS_ALL[qi])] + QASTS_ALL[qi]
+
+    for _ in range(nguard):
+        w = 0 if r.random() < 0.8 else 1
+        if g.poisoned[w]:
+            continue
+        c = r.random()
+        kinds = [s["kind"] for s in slots]
+        if c < 0.16:
+            qi = pick_q(); g.emit(100, w, qargs(qi)); slots.append(dict(kind="q", qidx=qi, w=w))
+        elif c < 0.34 and "q" in kinds:
+            i = r.choice([i for i, s in enumerate(slots) if s["kind"] == "q"]); g.emit(101, i)
+        elif c < 0.40 and any(s["kind"] == "q" and s["qidx"] in CAT.TBASE for s in slots):
+            i = r.choice([i for i, s in enumerate(slots) if s["kind"] == "q" and s["qidx"] in CAT.TBASE])
+            kind, ri = r.randrange(2), r.randrange(3)
+            nq = TTABLE[(slots[i]["qidx"], kind, ri)]
+            g.emit(102, i, kind, ri, nq, len(TR_ASTS[ri]), TR_ASTS[ri])
+            slots.append(dict(kind="q", qidx=nq, w=slots[i]["w"])); slots[i] = dict(kind="x", qidx=0, w=0)
+        elif c < 0.52 and slots:
+            i = r.randrange(len(slots)); g.emit(103, i); slots[i] = dict(kind="x", qidx=0, w=0)
+        elif c < 0.58:
+            qi = pick_q(); g.emit(104, w, qargs(qi)); slots.append(dict(kind="v", qidx=qi, w=w))
+        elif c < 0.63:
+            qi = pick_q(); g.emit(105, w, qargs(qi)); slots.append(dict(kind="p", qidx=qi, w=w))
+        elif c < 0.75:
+            h, _ = g.href(w, r.random() < 0.9)
+            g.emit(106, w, h, r.randrange(4), 1 if r.random() < 0.4 else 0); slots.append(dict(kind="r?", qidx=0, w=w))
+        elif c < 0.79 and slots:
+            i = r.randrange(len(slots)); g.emit(107, i); slots.append(dict(kind="r?", qidx=0, w=w))
+        elif c < 0.85:
+            h, _ = g.href(w, r.random() < 0.9)
+            qi = pick_q(); g.emit(108, w, h, qargs(qi)); slots.append(dict(kind="o", qidx=qi, w=w))
+        elif c < 0.91 and "o" in kinds:
+            i = r.choice([i for i, s in enumerate(slots) if s["kind"] == "o"])
+            if r.random() < 0.75 or slots[i]["qidx"] not in CAT.TBASE:
+                g.emit(109, i)
+            else:
+                kind, ri = r.randrange(2), r.randrange(3)
+                nq = TTABLE[(slots[i]["qidx"], kind, ri)]
+                g.emit(110, i, kind, ri, nq, len(TR_ASTS[ri]), TR_ASTS[ri])
+                slots.append(dict(kind="o", qidx=nq, w=slots[i]["w"])); slots[i] = dict(kind="x", qidx=0, w=0)
+        elif c < 0.96:
+            g.emit(111, w, r.randrange(0, 6), r.randrange(4), 1 if r.random() < 0.4 else 0); slots.append(dict(kind="c?", qidx=0, w=w))
+        elif c < 0.98 and slots:
+            i = r.randrange(len(slots)); g.emit(112, i); slots.append(dict(kind="c?", qidx=0, w=w))
+        else:
+            bi = r.randrange(len(BAD_ASTS)); path = r.randrange(5)
+            g.emit(113, path * 100 + bi, len(BAD_ASTS[bi]), BAD_ASTS[bi])
+        g.emit(114)
+    g.emit(115)
+    g.emit(22, 21, 0, 21, 1)
+    return [1] + universe + g.out
+
+
+def gen_guards(quick_n, thorough_n):
+    def gen(tier, seed, universe):
+        rnd = random.Random(seed)
+        for i in range(quick_n if tier == "quick" else thorough_n):
+            yield guard_case(universe, rnd, rnd.randrange(3, 14), rnd.randrange(4, 30))
+    return gen
